@@ -1,11 +1,13 @@
 (* C17 — JSON restores every session up to documented conversions; bad input
-   errors. Statements only; proofs are in Proofs/CodecLaws.v and CodecLaws2.v.
+   errors. Statements only; proofs are in Proofs/CodecText.v (base 36), CodecLaws2.v
+   (round trip), CodecLaws3.v (totality), CodecLaws4.v (re-encoding), CodecPinned.v.
    json_enc and json_dec are regenerated from MarshalJSON/UnmarshalJSON on
    every run (Gen/Layout.v). Library behaviour is universally quantified:
    `load` (Persistence.LoadUser), `fmt_time`/`parse_time` (time.Format,
    time.Parse), `jstr` (a string through json.Marshal and back), subject to
    the hypotheses spelled out in each statement. *)
-From Sessions Require Import Model.Base Model.Codec Gen.Layout Proofs.CodecLaws Proofs.CodecLaws2.
+From Sessions Require Import Model.Base Model.Codec Gen.Layout Proofs.CodecText Proofs.CodecDefs Proofs.CodecPinned
+  Proofs.CodecLaws2 Proofs.CodecLaws3 Proofs.CodecLaws4.
 Local Open Scope N_scope.
 
 (* The fingerprint sub-codec: FormatUint(_, 36) / ParseUint(_, 36, 64). *)
